@@ -171,7 +171,7 @@ CLAIMED["C01"] = dict(
          "suffix — hence in order, at most once, nothing invented, the buffer always holds the newest delivered samples; eviction only with safe overflow and only from a full buffer, "
          "skipping only without it (and then the send call does not count the subscriber); every sample sent while connected is delivered or skipped, nothing else is lost; the newest "
          "min(history request, buffer) history samples come first; pending samples of a live subscriber still carry the payload written for their send number, and `receive` returns it; "
-         "the subscriber's own per-publisher log is the connection's log.",
+         "the subscriber's own per-publisher log is the connection's log. COMPOSITION LEVEL (Iox2/Props/C01Compose.lean): the order of refresh-connections / add-to-history / deliver in PublisherSharedState::send_sample is regenerated from /repo (extract/api_order.py); for the regenerated program, interleaved step by step with a subscriber that registers at any moment, a late joiner receives every sample at most once and in send order (one subscriber, unbounded history and buffer).",
     note="Trusted: Lean kernel + 3 standard axioms; hand-written L1 model (tie = differential run of the real ports, local and ipc: exhaustive short histories, random, saturation); "
          "API calls atomic; DiscardData strategy; u64 payload; ghost fields are written but never read by the transitions.",
     technique="Lean 4 proof (three-layer inductive invariant: structure, reference accounting / non-reuse, send numbering) + differential correspondence model vs implementation",
